@@ -12,6 +12,12 @@ def side? : String → Option Side
 /-- `dec <receiving side> <authKey> <keyId> <frame>`: the model of `Cipher.DecryptFromBuffer`. -/
 def handle (line : String) : String :=
   match words line with
+  | ["decdata", pt] => match ofHex pt with
+    | some pt =>
+      match decodeData pt with
+      | .ok d => s!"ok {d.salt} {d.sid} {d.mid} {d.seq} {d.len} {toHex d.body} data={toHex d.payload}"
+      | .error e => "err " ++ e.tag
+    | none => "bad-op"
   | ["dec", s, ak, kid, c] =>
     match side? s, ofHex ak, ofHex kid, ofHex c with
     | some s, some ak, some kid, some c =>
